@@ -186,7 +186,9 @@ def encodeHdrSorted (h : List Req.HeaderSort.KV) : String :=
 
 /-- `c16rewrite <n> <c01h1 arguments…>`: the SAME request object written `n` times in a row by
 `persistConn.writeRequest` (transparent re-send on a new connection): the rendering of every
-attempt (as `c01h1`), then the header map the request is left with (sorted by key). -/
+attempt (as `c01h1`), then the header map the request is left with (sorted by key; rendered by
+meaning: the values of the keys the writer writes in their sanitised form — idempotent, so the
+in-place sanitising of `headerWriteSubset` and a copying implementation give the same answer). -/
 def laneRewrite : List String → String
   | n :: args =>
     match n.toNat?, decodeWReq args with
@@ -196,7 +198,8 @@ def laneRewrite : List String → String
       let showOne : Except Req.H1.WErr Bytes → String
         | .error e => showWErr e
         | .ok wire => if order.isEmpty then "ok " ++ Wire.showBlob wire else Wire.showOrdered wire order
-      " | ".intercalate (res.1.map showOne) ++ " after=" ++ encodeHdrSorted res.2.header
+      " | ".intercalate (res.1.map showOne) ++ " after=" ++
+        encodeHdrSorted (Req.Rewrite.sanitizedInPlace res.2.header Req.H1.reqWriteExcludeHeader)
     | _, _ => "bad-op"
   | _ => "bad-op"
 
